@@ -35,7 +35,9 @@ def run(tier, seed, only=None):
                        'an exception is accepted only where the reference scanner also has no answer (lone $, $ not followed by an identifier)']
     rep.trusted = ['crosshair-tool 0.0.110', 'z3', 'ref_scan/ref_adapt in checks/h_c30.py']
     ch.run_harnesses(rep, specs, classify)
-    if not only: templates(rep, tier)
+    if not only:
+        templates(rep, tier)
+        fragment_histories(rep)
     return rep
 
 
@@ -58,6 +60,25 @@ def templates(rep, tier):
             rep.add(Ob(nm, 'concrete-tie', CEX, cex={'sql': sql, 'style': h.STYLES[style]}, reproduced=True, key=None,
                        detail='adapt_sql(%r, %r) differs from the documented rule' % (sql, h.STYLES[style]),
                        replay='from pony.orm.core import adapt_sql\nprint(adapt_sql(%r, %r))\nraise SystemExit(1)\n' % (sql, h.STYLES[style])))
+
+
+FRAGMENTS = ['p.a > $x', 'p.a < $x', 'p.a = $x', 'p.a <> $x + 1', 'p.a > 0', 'p.a < 5', '$x < p.a', 'p.a > $(x + 1)', 'p.a > $x and p.a < $x']
+
+
+def fragment_histories(rep):
+    """raw_sql() fragments spliced into a declarative query at ONE program location: the SQL for the second fragment must not
+    depend on the first (translator cache keyed by the fragment).  Finite family, concrete obligations."""
+    import itertools
+    from engine.core import Ob, HOLDS, CEX
+    from checks import h_c30 as h
+    for f1, f2 in itertools.permutations(FRAGMENTS, 2):
+        good, warm, cold = h.fragment_history_ok(f1, f2)
+        nm = 'fragment-history: raw_sql(%r) then raw_sql(%r)' % (f1, f2)
+        if good: rep.add(Ob(nm, 'concrete-tie', HOLDS))
+        else:
+            rep.add(Ob(nm, 'concrete-tie', CEX, cex={'first': f1, 'second': f2, 'warm_sql': warm, 'cold_sql': cold}, reproduced=True, key='fragment-history',
+                       detail='after raw_sql(%r) the query with raw_sql(%r) is translated to %r, alone to %r' % (f1, f2, warm, cold),
+                       replay='import sys; sys.path.insert(0, "/verif")\nfrom checks import h_c30\nr = h_c30.fragment_history_ok(%r, %r)\nprint(r)\nsys.exit(0 if r[0] else 1)\n' % (f1, f2)))
 
 
 def template_ok(h, pre, suf, style, tmpl):
